@@ -471,7 +471,8 @@ func c12Batch(c *Ctx, a *sketchAnchors) {
 	if !c.mustFunc(rule, f, "(*DDSketch).GetValuesAtQuantiles") {
 		return
 	}
-	paths, _ := exec(c, f, nil, 2)
+	// visit bound 3: two full iterations, so that code which treats the first element specially (i > 0 …) is seen
+	paths, _ := exec(c, f, nil, 3)
 	n := 0
 	bad := ""
 	for _, p := range paths {
